@@ -292,7 +292,9 @@ class TimedList(Generic[Item]):
     def sorted(self, reverse: bool = False):
         """Sorts the list by offset"""
 
-        return self.__class__(self.df.sort_values("offset", ascending=not reverse))
+        return self.__class__(
+            self.df.sort_values("offset", ascending=not reverse, kind="stable")
+        )
 
     def between(
         self,
